@@ -153,7 +153,11 @@ def dead_fields_check(H):
             interp.setattr(self, "prvs_alpha", res)
             return res
         it = H.interp(cx, overrides={f"{NW}._solve_optimization": solve_contract})
-        n = 2  # the cvxpy problem is built for a concrete number of tasks (its constraint loop is unrolled)
+        nsym = cx.choose(2, "n_tasks_symbolic")
+        # n = 2: the constraint loop of _init_optim_problem is unrolled; symbolic n: it is summarised as an append-only map loop
+        n = 2 if nsym == 0 else z3.Int("n_tasks")
+        if nsym:
+            cx.assume(n >= 1)
         w = it.call(H.repo.get(NW), [], {"n_tasks": n, "max_norm": z3.Real("max_norm"), "update_weights_every": z3.Int("k"), "optim_niter": 5})
         cx.assume(z3.Int("k") >= 1)
         marks = {}
@@ -182,10 +186,10 @@ def dead_fields_check(H):
                 "normalization_factor_param": ("cpparam", [1])}
         for f, (lk, shp) in want.items():
             v = w.attrs.get(f)
-            cx.oblige(f"C19.dead.init_builds.{f}", isinstance(v, CvxLeaf) and v.leaf_kind == lk
-                      and len(v.shape_l) == len(shp) and all(z3.is_true(z3.simplify(lift(a) == lift(b))) for a, b in zip(v.shape_l, shp)))
+            cx.oblige(f"C19.dead.init_builds.{'n2' if nsym == 0 else 'any_n'}.{f}", isinstance(v, CvxLeaf) and v.leaf_kind == lk
+                      and len(v.shape_l) == len(shp) and all(z3.is_true(z3.simplify(lift(a) == lift(b))) or lift(a).eq(lift(b)) for a, b in zip(v.shape_l, shp)))
         pr = w.attrs.get("prob")
-        cx.oblige("C19.dead.init_builds.prob", isinstance(pr, CvxProblem) and all(any(l is w.attrs.get(f) for l in _leaves_of(pr)) for f in want))
+        cx.oblige(f"C19.dead.init_builds.{'n2' if nsym == 0 else 'any_n'}.prob", isinstance(pr, CvxProblem) and all(any(l is w.attrs.get(f) for l in _leaves_of(pr)) for f in want))
     H.explore(body)
 
 
